@@ -163,3 +163,7 @@ func (e *Emitter) Close() {
 	e.w.Flush()
 	e.f.Close()
 }
+
+type bigInt = big.Int
+
+func bigOne() *big.Int { return big.NewInt(1) }
